@@ -101,6 +101,7 @@ def run(c, facts, tier):
         c.ob("C07.convert", key[0] if key else ty, "%s count is parsed by the u64 parser into a u64 field" % ty, ftys == {"u64"} and "<u64 as Parseable>::parse" in refs and not [r for r in refs if re.match(r"<(u8|u16|u32|i\d+) as Parseable>", r)], "payload types %s; number parsers used: %s" % (sorted(ftys), sorted(set(r for r in refs if "Parseable" in r))))
     # ---------------------------------------------------------------- E2: casts, lossy calls, arithmetic
     m = mir.load(True)
+    D0 = c03.Discharger(c, facts, b, g, an, m)
     ncast = 0
     for p, bd in sorted(m.bodies.items()):
         fn = mir.e1_key(p, facts)
@@ -134,6 +135,16 @@ def run(c, facts, tier):
                 lo, hi = (-(1 << (wt - 1)), (1 << (wt - 1)) - 1) if ca["to"][0] == "i" else (0, (1 << wt) - 1)
                 if lo <= val <= hi:
                     c.ob("C07.no-narrowing", fn, "%s as %s (constant %d)" % (ca["from"], ca["to"], val), True, "literal constant %d fits %s: no run-time value is converted" % (val, ca["to"]), nontrivial=False)
+                    continue
+            if not (wt >= wf and (ca["from"][0] == ca["to"][0] or (ca["from"][0] == "u" and wt > wf))) and fn in facts.fns:
+                # a digit below its radix (the second parameter of a radix fold over to_digit(R), R ≤ 36) converted to another
+                # integer type: every `as` of this kind in the function must be one of those
+                f_ = facts.fns[fn]
+                D0.radix_fold(f_, find_all(f_.body, lambda n: n.get("k") == "binary" and n["op"] in ("+", "-", "*", "<<")))
+                dc = getattr(D0, "_digit_casts", [])
+                same_kind = [x for x in find_all(f_.body, lambda n: n.get("k") == "cast") if norm_ty(x.get("ty") or "") == ca["to"]]
+                if same_kind and all(any(x is y for y in dc) for x in same_kind):
+                    c.ob("C07.no-narrowing", fn, "%s as %s (digit)" % (ca["from"], ca["to"]), True, "the converted value is a digit produced by to_digit(R) inside a bounded radix fold: below 36, it fits %s" % ca["to"], nontrivial=False)
                     continue
             ok = wt >= wf and (ca["from"][0] == ca["to"][0] or (ca["from"][0] == "u" and wt > wf))
             c.ob("C07.no-narrowing", fn, "%s as %s" % (ca["from"], ca["to"]), ok, "%s-bit → %s-bit %s" % (wf, wt, "widening" if ok else "NARROWING / sign-changing: a value out of range silently becomes a different number"), witness="-uid 4294967297" if not ok else None)
